@@ -46,6 +46,9 @@ impl Interp {
         self.last.clear();
         self.other.clear();
         crate::tracked::reset_ledger();
+        if let Ok(mut t) = TRACE.lock() {
+            t.clear(); // a new case
+        }
     }
 
     fn build_from_line(line: &str) -> Box<dyn Inst> {
@@ -156,6 +159,21 @@ impl Interp {
     /// `Ok(result)`, `Err("PANIC")` for a panic of the code under test, `Err("OVERFLOW")` when the
     /// exact-rational type overflowed (case is discarded); harness errors abort the process.
     pub fn exec(&mut self, line: &str) -> Result<String, String> {
+        use std::sync::atomic::Ordering::SeqCst;
+        if let Ok(mut t) = TRACE.lock() {
+            if t.len() > 400 {
+                t.clear(); // keep the report short
+            }
+            t.push(line.to_string());
+        }
+        TICK.fetch_add(1, SeqCst);
+        IN_EXEC.store(true, SeqCst);
+        let r = self.exec_watched(line);
+        IN_EXEC.store(false, SeqCst);
+        r
+    }
+
+    fn exec_watched(&mut self, line: &str) -> Result<String, String> {
         match catch_unwind(AssertUnwindSafe(|| self.exec_inner(line))) {
             Ok(r) => Ok(r),
             Err(_) => {
@@ -182,12 +200,60 @@ pub struct RunStats {
     pub panic_msgs: Vec<String>,
 }
 
+/// Watchdog: the code under test runs in-process (while cases are executed, and while a generator consults the real
+/// filter), and a change that makes a filter loop for ever must not hang the check. Every `Interp::exec` records the
+/// operations of the current case; a monitor thread exits the process with status 6 and the line
+/// `HARNESS-HANG case=<n> ops=<op> ;; <op> …` when one call has not returned within `HANG_SECS`.
+pub const HANG_SECS: u64 = 30;
+static IN_EXEC: std::sync::atomic::AtomicBool = std::sync::atomic::AtomicBool::new(false);
+static TICK: std::sync::atomic::AtomicU64 = std::sync::atomic::AtomicU64::new(0);
+static CASE_NO: std::sync::atomic::AtomicU64 = std::sync::atomic::AtomicU64::new(0);
+static TRACE: std::sync::Mutex<Vec<String>> = std::sync::Mutex::new(Vec::new());
+
+pub fn start_watchdog() {
+    use std::sync::atomic::Ordering::SeqCst;
+    std::thread::spawn(|| {
+        let (mut last_tick, mut stuck) = (u64::MAX, 0u64);
+        loop {
+            std::thread::sleep(std::time::Duration::from_secs(1));
+            let t = TICK.load(SeqCst);
+            if IN_EXEC.load(SeqCst) && t == last_tick {
+                stuck += 1;
+            } else {
+                stuck = 0;
+            }
+            last_tick = t;
+            if stuck >= HANG_SECS {
+                // a generator's private instance runs many cases through one interpreter: report the last one
+                let ops = TRACE
+                    .lock()
+                    .map(|t| {
+                        let start = t.iter().rposition(|l| l.starts_with("new 1 ") || l.starts_with("inject 1 ")).unwrap_or(0);
+                        t[start..].join(" ;; ")
+                    })
+                    .unwrap_or_default();
+                println!("HARNESS-HANG case={} ops={}", CASE_NO.load(SeqCst), ops);
+                std::process::exit(6);
+            }
+        }
+    });
+}
+
+pub fn run_cases_watched(cases: Vec<Vec<String>>, first_case_no: usize) -> (String, RunStats) {
+    run_cases_with(&cases, first_case_no, &|i| CASE_NO.store(i as u64 + 1, std::sync::atomic::Ordering::SeqCst))
+}
+
 pub fn run_cases(cases: &[Vec<String>], first_case_no: usize) -> (String, RunStats) {
+    run_cases_with(cases, first_case_no, &|_| {})
+}
+
+fn run_cases_with(cases: &[Vec<String>], first_case_no: usize, heartbeat: &dyn Fn(usize)) -> (String, RunStats) {
     let mut out = String::new();
     let mut st = RunStats { cases: 0, discarded: 0, ops: 0, panics: 0, panic_msgs: vec![] };
     let mut it = Interp::default();
     let mut no = first_case_no;
-    for case in cases {
+    for (case_index, case) in cases.iter().enumerate() {
+        heartbeat(case_index);
         it.clear();
         let mut buf = String::new();
         let mut n_ops = 0;
